@@ -7,6 +7,7 @@ import Driver.C14
 import Driver.C05Mon
 import Driver.C08
 import Driver.C10Mon
+import Driver.C10
 import Driver.C15
 import Driver.C06Mon
 import Driver.C17
@@ -42,7 +43,7 @@ def dispatch (st : DState) (prop : String) (l : Line) : DState × String :=
   | "C14" => (st, Drv.C14.step l)
   | "C05" => (st, Drv.C05.step l)
   | "C08" => let (s, r) := Drv.C08.step st.c08 l; ({ st with c08 := s }, r)
-  | "C10" => (st, Drv.C10.step l)
+  | "C10" => (st, Drv.C10.stepModel l)
   | "C15" => (st, Drv.C15.step l)
   | "C06" => (st, Drv.C06.step l)
   | "C17" => let (s, r) := Drv.C17.step st.c17 l; ({ st with c17 := s }, r)
